@@ -63,26 +63,28 @@ func reexecWithoutRaceExitCode() {
 func (c19) ID() string             { return "C19" }
 func (c19) Race() bool             { return true }
 func (c19) CrashIsViolation() bool { return true }
-func (c19) CaseTimeout(string) int { return 300 }
+func (c19) CaseTimeout(string) int { return 150 }
 
 func (c19) Rule() string {
-	return "Each run = one fresh connection handled by websocket.HandleWithOptions with a scripted TransportClient and a scripted ExecutorPool; script = client word + engine-event schedule (d = one flushed data item, f = Execute returns nil with one buffered result, x = Execute returns an error; an event with slot t is released just before client message t, slot=len(word) after the word; within a slot in operation order) + what a cancelled executor returns (v2: query→ctx error, subscription→nil; data: query→its result; err: always the ctx error). A final probe (ping / legacy connection_init) is appended to every run whose connection is still open. " +
+	return "Each run = one fresh connection handled by websocket.HandleWithOptions with a scripted ExecutorPool and (a) a scripted TransportClient or (b, 'wire') the repository's websocket.Client over an in-memory net.Conn whose written bytes are parsed back into frames. Script = client word + engine-event schedule (d = one flushed data item, f = Execute returns nil with one buffered result, x = Execute returns an error; an event with slot t is released just before client message t, slot=len(word) after the word; within a slot in operation order) + what a cancelled executor returns (v2: query→ctx error, subscription→nil, as ExecutorV2 does; data: query→its result; err: always the ctx error). A final probe (ping / legacy connection_init) is appended to every run whose connection is still open. The reference machine rejects a trace at its first offending event (one violation per run at most); end-of-run liveness (missing close/ack/pong/terminal/data) is judged only in runs that waited for quiescence. " +
 		"graphql-transport-ws alphabet (16): I Ip(accepted payload) Ir(payload the InitFunc rejects) P Q Sq1 Sq2 Ss1 Ss2 Sx1 Sx2(executor fails at once) C1 C2 U J E. " +
-		"EXHAUSTIVE: (A) quick: every word of length 0..3, thorough: 0..4, each with EVERY schedule of the space {per operation that can have started: query ∈ {ε,f,x}, subscription ∈ all sequences over {d,f,x} of length ≤2 plus d·(any two); every non-decreasing slot placement} (per word capped at 4000 schedules in thorough only, cap hits are counted) × cancel modes {v2,data,err} when a complete follows a subscribe, else {v2}; (B) quick: every word of length 4, thorough: every word of length 5, each with the fixed family of 8 schedules (none, finish-asap, error-asap, finish-late, error-late, finish-next, spread, error-next; duplicates dropped) × the same cancel modes. All of A and B run in the deterministic mode (after every step the driver waits until the handler is back in Read and every operation goroutine is parked, finished or re-polled). " +
-		"Legacy graphql-ws alphabet (14): I Ip Ir Tq1 Tq2 Ts1 Ts2 Tx1 St1 St2 T U J E; exhaustive with every schedule for length 0..2 (thorough 0..3), fixed family for length 3 (thorough 4). " +
-		"SAMPLED: seeded random words of length 1..12 over the alphabets extended with ids 3, undecodable payloads, pool failures, valid-JSON-wrong-shape, payload-less ping, server-only types …, random schedules (≤4 events per operation), half of them in racy mode (no waiting between steps), a quarter with sub-millisecond keep-alives, some with the client vanishing abruptly. Init time-out cases: no-init words with a 20–40 ms time-out (close 4408 awaited, judged by trace order), init-first words with a 300 ms time-out and a 450 ms linger (4408 must not come), init racing the timer. " +
+		"EXHAUSTIVE, deterministic mode (after every step the driver waits until the handler is back in Read and every operation goroutine is parked, finished or re-polled): (A) quick: every word of length 0..3, thorough: 0..4, each with EVERY schedule of the space {per operation that can have started: query ∈ {ε,f,x}, subscription ∈ all sequences over {d,f,x} of length ≤2 plus d·(any two); every non-decreasing slot placement} (thorough only: capped at 1000 schedules per word, cap hits counted in words_with_schedule_cap_hit) × cancel modes {v2,data,err} when a complete follows a subscribe, else {v2}; (B) quick: every word of length 4 with the fixed family of 6 schedules (none, finish-asap, error-asap, finish-late, error-late, spread), thorough: every word of length 5 with 8 (plus finish-next, error-next); duplicates dropped; cancel modes {v2,data,err} only for 'none' and 'finish-late' of words where a complete follows a subscribe. " +
+		"Legacy graphql-ws alphabet (14): I Ip Ir Tq1 Tq2 Ts1 Ts2 Tx1 St1 St2 T U J E; every schedule for length 0..2 (thorough 0..3, same cap), fixed family for length 3 (thorough 4). " +
+		"SAMPLED (seeded): words of length 1..12 over the alphabets extended with id 3, undecodable payloads, pool failures, valid-JSON-of-the-wrong-shape, payload-less ping, server-only types, null …; random schedules (≤4 events per operation); half in racy mode (messages and events back to back, no waiting), a quarter with 0.1–1 ms keep-alives, some with the client vanishing abruptly. Wire runs (transport-ws): half random as above, half of the shape init · 1–3 subscriptions · fatal message or duplicate id, with data released around the fatal message in racy mode. Init time-out cases: no-init words with a 20–40 ms time-out (close 4408 awaited, judged by trace order), init-first words with a 300 ms time-out and a 450 ms linger (4408 must not come), init racing the timer. " +
 		"A run is non-trivial when the server wrote at least one message or close frame; distinct = distinct (protocol, word) for the exhaustive kinds, distinct (protocol, script, options) for the sampled ones."
 }
 
 func (c19) Assumptions() []string {
 	return []string{
-		"client messages enter the trace at the moment ReadBytesFromClient hands them to the handler; server messages when WriteBytesToClient is called; one mutex orders both",
-		"the scripted TransportClient closes atomically (a write attempted after the close frame is refused and counted, as websocket.Client does once its closed flag is set); the window inside websocket.Client.DisconnectWithReason between writing the frame and setting the flag is not exercised",
-		"a server 'complete' for an id that no accepted subscribe ever used is tolerated; an empty frame, a valid-JSON value of the wrong shape and a subscribe with an undecodable payload may be ignored or answered with 4400; a refused init may be answered with any 44xx close or ignored, never with connection_ack",
-		"close 4408 is accepted whenever no connection_ack has been written yet; after an ack it is a violation unless the first init was taken later than half the time-out after the start (then: inconclusive)",
+		"client messages enter the trace at the moment the read hands them to the handler; server messages when WriteBytesToClient is called (wire: when the last byte of the frame is written); one mutex orders both",
+		"scripted-client runs: the client closes atomically (a write attempted after the close frame is refused and counted, as websocket.Client does once its closed flag is set); 'nothing after the close frame' and frame integrity are judged in the wire runs only, where one Write call on the connection is atomic and followed by a scheduler yield",
+		"a subscribe whose id is in use is a duplicate unless every instance in the way gets its terminal before the server takes its next message (the server takes a message first and checks the id a moment later)",
+		"a server 'complete' for an id that no accepted subscribe ever used is tolerated; an empty frame, a valid-JSON value of the wrong shape and a subscribe with an undecodable payload may be ignored, answered with error(id) or 4400; a refused init may be answered with any 44xx close or ignored, never with connection_ack",
+		"close 4408 is accepted whenever no connection_ack has been written yet; after an ack it is a violation unless that ack was written later than half the time-out after the start (then: inconclusive)",
 		"a subscription whose Execute returns nil is re-polled by the engine and owes no terminal; operations that ended by themselves (query result/error, subscription error) owe one, judged when the handler is idle and every goroutine parked",
-		"legacy graphql-ws: start before init, repeated init and connection_terminate are legal; an 'error' for an id answers a refused duplicate start before it counts as that id's terminal",
-		"an unanswered init time-out is reported only after 400× the configured time-out (≥6 s) with the handler idle",
+		"messages without an operation token (complete, 'context canceled') are attributed by: result-then-complete adjacency, the instance the latest client complete gave up, executors that had observed cancellation by then (ground truth), newest live instance",
+		"legacy graphql-ws: start before init, repeated init and connection_terminate are legal; after connection_terminate / a refused init every operation counts as given up by the client; an 'error' that says the id already exists is the refusal of a duplicate start, legal only while such a start is undecided",
+		"an unanswered init time-out is reported only after 400× the configured time-out (≥6 s) with the handler idle; a bounded wait on the server that never ends (25 s) is left to the framework's hang path with the witness on stderr",
 	}
 }
 
